@@ -222,7 +222,60 @@ def k_general(run, case):
                 {"plane": plane, "n": n, "mode": mode, "classes": arr["cls"]})
 
 
-KINDS = {"grid": k_grid, "planar": k_planar, "general": k_general}
+def k_derived(run, case):
+    """
+    One source trajectory, several objects derived from it (deep copies, synchronised copies
+    from sync.associate_trajectories, split parts), each projected onto a different plane - the
+    usual "one reference, one evaluation per plane" loop.  Every projection is judged against the
+    source's generating arrays: a projection of one derived object must not leak into the next.
+    """
+    import copy
+    from evo.core import sync
+    from evo.core.trajectory import Plane
+    rng = run.rng(case)
+    n = int(rng.integers(4, 50))
+    arr = gen.traj_arrays(rng, n, stamp_cls="small")
+    for k in range(1, n):
+        if arr["t"][k] <= arr["t"][k - 1]:
+            arr["t"][k] = arr["t"][k - 1] + 1e-3
+    mode = "se3" if rng.random() < .6 else "xyzq"
+    src = gen.make_evo(arr, mode, True, flavour=gen.rand_flavour(rng))
+    aged = gen.age(rng, src, p=.8)
+    planes = list(rng.permutation(list(PLANES)))[:int(rng.integers(2, 4))]
+    hows = []
+    for plane in planes:
+        how = ["deepcopy", "associate_first", "associate_second", "split"][rng.integers(4)]
+        hows.append(how + ">" + plane)
+        ids = list(range(n))
+        if how == "deepcopy":
+            d = copy.deepcopy(src)
+        elif how == "split":
+            d = src.split_time_gaps(1e12)[0]
+        else:
+            keep = np.nonzero(rng.random(n) < .7)[0]
+            keep = keep if len(keep) >= 2 else np.arange(n)
+            partner = gen.make_evo({k: (v[keep] if isinstance(v, np.ndarray) else v)
+                                    for k, v in gen.traj_arrays(rng, n, stamp_cls="small").items() if k != "t"} |
+                                   {"t": arr["t"][keep]}, "xyzq", True)
+            with core.quiet():
+                a, b = sync.associate_trajectories(src, partner, 1e-4) if how == "associate_first" else \
+                    sync.associate_trajectories(partner, src, 1e-4)[::-1]
+            d, ids = a, [int(k) for k in keep]
+        sub = {k: (v[ids] if isinstance(v, np.ndarray) else v) for k, v in arr.items()}
+        if rng.random() < .3:
+            gen.age(rng, d, p=1.0)
+        out = contracts.outcome_of(d.project, Plane(plane))
+        if not run.check(out[0] == "ok", "project of a derived object succeeds", case,
+                         "project(%s) of an object derived by %s raised %r" % (plane, how, out[1]), key="project:raised"):
+            break
+        check_projected(run, case, d, sub, plane, [False] * len(ids), np.zeros(len(ids)), True)
+        run.hit("projections of objects derived from one source judged")
+    run.seen(case, core.digest(arr["p"], arr["R"], hows, mode), cls=["derived objects of one source projected onto %d planes" % len(planes),
+                                                                  "source storage:" + mode],
+             sample={"n": n, "derivations": hows, "source read before": aged})
+
+
+KINDS = {"grid": k_grid, "planar": k_planar, "general": k_general, "derived": k_derived}
 
 
 def main(run):
@@ -236,6 +289,8 @@ def main(run):
         k_planar(run, run.case("planar", i))
     for i in run.mine(n):
         k_general(run, run.case("general", i))
-    run.need("out-of-plane coordinate exactly zero", "in-plane coordinates unchanged (bitwise)",
+    for i in run.mine(n // 3):
+        k_derived(run, run.case("derived", i))
+    run.need("projections of objects derived from one source judged", "out-of-plane coordinate exactly zero", "in-plane coordinates unchanged (bitwise)",
              "orientation is a pure rotation about the plane normal", "planar pose left unchanged",
              "second projection refused", "project keeps timestamps")
